@@ -14,20 +14,22 @@ using namespace Tins;
 
 struct Dgram { std::string src, dst; uint16_t id; int proto; std::vector<uint8_t> payload; long n; long U; };
 
-static Dgram make_dgram(int d, long n, long scale, const std::string& mode, vh::Rng& rng, bool partial_last) {
+static Dgram make_dgram(int d, long n, long scale, const std::string& mode, vh::Rng& rng, bool partial_last, long trim) {
     Dgram g; g.n = n; g.U = 8 * scale;
     g.id = mode == "distinct_id" ? (uint16_t)(0x1000 + d) : 0x4242;
     if (mode == "reverse") { g.src = d == 1 ? "10.1.1.1" : "10.1.1.2"; g.dst = d == 1 ? "10.1.1.2" : "10.1.1.1"; }
     else if (mode == "distinct_pair") { g.src = d == 1 ? "10.1.1.1" : "10.1.1.3"; g.dst = "10.1.1.2"; }
     else { g.src = "10.1.1.1"; g.dst = "10.1.1.2"; }
-    long total = n * g.U; if (partial_last && n > 1) total -= rng.range(0, (int)g.U - 1);
-    int hdr; int pr = rng.below(3);
-    if (pr == 1 && total >= 20) { g.proto = 6; hdr = 20; } else if (pr == 2) { g.proto = 1; hdr = 8; } else { g.proto = 17; hdr = 8; }
+    long total = n * g.U; if (trim >= 0) total -= trim; else if (partial_last && n > 1) total -= rng.range(0, (int)g.U - 1);
+    // "any protocol": the three libtins dissects, and protocol numbers it has no class for (the payload then stays raw bytes)
+    static const int OTHER[] = {47, 89, 132, 253, 255, 0, 2, 46, 103, 112};
+    int hdr; int pr = rng.below(4);
+    if (pr == 1 && total >= 20) { g.proto = 6; hdr = 20; } else if (pr == 2) { g.proto = 1; hdr = 8; } else if (pr == 3) { g.proto = OTHER[rng.below(10)]; hdr = 0; } else { g.proto = 17; hdr = 8; }
     std::vector<uint8_t> data; for (long i = 0; i < total - hdr; ++i) data.push_back((uint8_t)((d * 97 + i * 13 + (i / g.U) * 31 + rng.below(1)) & 0xff));
     // make every unit distinguishable: stamp the unit index into the first data byte of each unit
     for (long u = 0; u * g.U < total; ++u) { long pos = u * g.U - hdr; if (pos >= 0 && pos + 1 < (long)data.size()) { data[pos] = (uint8_t)(0xA0 + d); data[pos + 1] = (uint8_t)u; } }
     IP ip(g.dst, g.src);
-    if (g.proto == 17) ip /= UDP(5000 + d, 6000 + d); else if (g.proto == 6) { TCP t(80 + d, 4000 + d); t.seq(1000 * d); ip /= t; } else { ICMP ic(ICMP::ECHO_REQUEST); ic.id(d); ic.sequence(7); ip /= ic; }
+    if (hdr == 0) ip.protocol((uint8_t)g.proto); else if (g.proto == 17) ip /= UDP(5000 + d, 6000 + d); else if (g.proto == 6) { TCP t(80 + d, 4000 + d); t.seq(1000 * d); ip /= t; } else { ICMP ic(ICMP::ECHO_REQUEST); ic.id(d); ic.sequence(7); ip /= ic; }
     if (!data.empty()) ip /= RawPDU(data.begin(), data.end());
     std::vector<uint8_t> ser = ip.serialize();
     g.payload.assign(ser.begin() + 20, ser.end());
@@ -38,7 +40,8 @@ static void scenario(const vh::Json& sc, vh::Out& out, vh::Rng& rng, const vh::A
     std::string mode = sc.has("mode") ? sc["mode"].str() : args.get("mode", "distinct_id");
     long scale = sc.has("scale") ? sc["scale"].num() : 1;
     bool partial = rng.coin();
-    Dgram g[3]; g[1] = make_dgram(1, sc["n"][0].num(), scale, mode, rng, partial); g[2] = make_dgram(2, sc["n"][1].num(), scale, mode, rng, partial);
+    long trim = sc.has("trim") ? sc["trim"].num() : -1;      // exact size of datagram 1: n*unit - trim octets
+    Dgram g[3]; g[1] = make_dgram(1, sc["n"][0].num(), scale, mode, rng, partial, trim); g[2] = make_dgram(2, sc["n"][1].num(), scale, mode, rng, partial, -1);
     out.begin("\"mode\":\"" + mode + "\",\"scale\":" + std::to_string(scale) + ",\"units\":[" + std::to_string(g[1].n) + "," + std::to_string(g[2].n) + "]");
     IPv4Reassembler reasm;
     const vh::Json& pk = sc["pkts"];
@@ -85,7 +88,7 @@ static void scenario(const vh::Json& sc, vh::Out& out, vh::Rng& rng, const vh::A
                 if (who > 0) w.A().v(who).v(u).E(); else w.A().v(-1).v(-1).E();
             }
             w.E();
-            PDU::PDUType want = G.proto == 17 ? PDU::UDP : (G.proto == 6 ? PDU::TCP : PDU::ICMP);
+            PDU::PDUType want = G.proto == 17 ? PDU::UDP : (G.proto == 6 ? PDU::TCP : (G.proto == 1 ? PDU::ICMP : PDU::RAW));
             w.kv("hdr_off", (long)r.ttl() - 64).kv("off", (long)r.fragment_offset()).kv("mf", (r.flags() & IP::MORE_FRAGMENTS) != 0)
              .kv("upper_ok", r.inner_pdu() && r.inner_pdu()->pdu_type() == want)
              .kv("size_ok", inner.size() == G.payload.size())
